@@ -122,12 +122,14 @@ func (s *Streamer) parseEvents(ctx context.Context, events <-chan replication.Bi
 
 	commit := func(ev replication.BinlogEvent) error {
 		now := pos
-		pos.Offset = ev.NextPosition()
 		next := pos
+		next.Offset = ev.NextPosition()
 		tran := newTransaction(now, next, int64(ev.Timestamp()), tranEvents)
 		if err = s.sendTransaction(tran); err != nil {
 			return fmt.Errorf("sendTransaction error: %v", err)
 		}
+		// only a transaction the handler accepted moves the resume position
+		pos = next
 		tranEvents = nil
 		autocommit = true
 		return nil
